@@ -791,7 +791,10 @@ func checkRecoverShape(fn *ssa.Function) string {
 	for _, in := range fn.Blocks[0].Instrs {
 		d, ok := in.(*ssa.Defer)
 		if !ok {
-			if _, isCall := in.(*ssa.Call); isCall {
+			if cl, isCall := in.(*ssa.Call); isCall {
+				if b, isB := cl.Call.Value.(*ssa.Builtin); isB && b.Name() == "ssa:deferstack" {
+					continue // bookkeeping of the SSA form, not a call of the program
+				}
 				return "a call precedes the deferred recover"
 			}
 			continue
